@@ -269,6 +269,9 @@ def case_mode(ctx, nch, n_batches):
         cr = sum([arrays._num(core.eq(labels[c][b], r)) for b in range(n_batches)])
         ctx.oblige("label_is_a_most_frequent_one", all_([cr >= cnt(k) for k in range(4)]), detail={"channel": c, "result": r})
         ctx.oblige("label_is_one_of_the_batch_labels", any_([core.eq(r, labels[c][b]) for b in range(n_batches)]), detail={"channel": c})
+        # the mode as scipy.stats.mode (and NumPy's unique-based modes) define it: among equally frequent labels the SMALLEST one,
+        # i.e. a channel that is fine in half of the batches stays fine
+        ctx.oblige("ties_go_to_the_smallest_label", all_([implies(core.eq(cnt(k), cr), r <= k) for k in range(4)]), detail={"channel": c, "result": r})
 
 
 def cases(tier):
@@ -281,6 +284,8 @@ def cases(tier):
         cs.append(Case(f"interp_{lay}_run_of_bad_m{mm}", "case_interpolate", {"layout": lay, "m": mm, "off": 0, "free": 0, "run": True, "ns": 1}, timeout_s=3000, max_paths=300000))
     for lay, bad_at in (("np1", 3),) if tier == "quick" else (("np1", 3), ("np1", 0), ("np2", 4), ("np24", 7)):
         cs.append(Case(f"interp_{lay}_int16_bad{bad_at}", "case_interpolate_int16", {"layout": lay, "m": 8, "bad_at": bad_at}, timeout_s=1500))
+    cs.append(Case("mode_1ch_2batches", "case_mode", {"nch": 1, "n_batches": 2}))      # even counts: ties between batches
+    cs.append(Case("mode_1ch_4batches", "case_mode", {"nch": 1, "n_batches": 4}))
     cs.append(Case("mode_2ch_3batches", "case_mode", {"nch": 2, "n_batches": 3}))
     cs.append(Case("mode_2ch_4batches", "case_mode", {"nch": 2, "n_batches": 4}))
     cs.append(Case("mode_1ch_5batches", "case_mode", {"nch": 1, "n_batches": 5}))
@@ -382,6 +387,7 @@ bad = []
 for c in range(nch):
     vals, cnts = np.unique(L[c], return_counts=True)
     if res[c] not in vals[cnts == cnts.max()]: bad.append(('not a mode', c, res[c], L[c].tolist()))
+    elif res[c] != vals[cnts == cnts.max()].min(): bad.append(('tie between batches not resolved to the smallest label', c, res[c], L[c].tolist()))
 for a, b in slices:
     if not (0 <= a < b <= ns): bad.append(('slice', a, b))
 print(res, bad)
